@@ -60,6 +60,27 @@ PROPS = {
         'design_ref': 'DESIGN.md 5 C04',
         'explanation': 'BIP143 contract',
     },
+    'C07': {
+        'modules': ['contracts.c06'],
+        'level': 'proof',
+        'trusted_base': COMMON_TB,
+        'assumptions': [
+            'ASSUMED contract for _CheckSig (OpenSSL behind ctypes): returns a boolean, never raises, False for an empty signature',
+            'ASSUMED contract bn2vch = minimal script-number encoder (contracts/c08_wip.py: undecided)',
+            'byte strings are shorter than 2^32 bytes (otherwise struct.pack(">I", len) in the number codec could raise)',
+            'CLEANSTACK without P2SH is excluded by precondition (the reference implementation asserts there as well)',
+            'frame: scripts are immutable bytes; txTo reaches only _CheckSig (assumed) - the no-side-effect clause for txTo rests on the C03 frame of RawSignatureHash',
+            'termination: the main loop runs over the finite operation sequence; _CheckMultiSig loops carry decreases measures',
+        ],
+        'level_text': '_EvalScript: for arbitrary bytes as the script, every one of the 256 opcode values (case split) in '
+                      'executed and unexecuted branches raises only EvalScriptError subclasses or invalid-script errors, '
+                      'every stack index is in range, and the limits (<= 1000 stack+altstack items, <= 201 counted operations) are a loop '
+                      'invariant; _CheckMultiSig: all indices in range, loops terminate; EvalScript wraps invalid-script errors; '
+                      'VerifyScript (any flag subset) returns or raises a ValidationError - the P2SH assert is shown unreachable.',
+        'level_note': 'trusted: pyvc, z3/cvc5, assumed _CheckSig and bn2vch contracts, specs/script.py',
+        'design_ref': 'DESIGN.md 5 C07',
+        'explanation': 'interpreter totality contracts',
+    },
     'C08': {
         'modules': ['contracts.c08'],
         'level': 'proof',
